@@ -8,7 +8,7 @@
    `presented s` = samples made available to read/take, `s_log s` = publication log,
    `s_changes s` = what the writer still holds, `delivered s` = every held change that is relevant for
    the reliable matched reader is in its presented list. *)
-From DustDDS Require Import Base.Machine Proto.RelModel Proto.RelProofs Proto.RelWitness.
+From DustDDS Require Import Base.Machine Proto.RelModel Proto.RelProofs Proto.RelLive Proto.RelWitness.
 Open Scope Z_scope.
 
 (* SAFETY, unbounded: for every configuration and EVERY finite schedule (any loss, duplication,
@@ -33,6 +33,32 @@ Definition C01_reliable_liveness_statement : Prop :=
    undelivered, still held sample 1, which is never requested again. *)
 Theorem C01_reliable_liveness_refuted_gap_skip : ~ C01_reliable_liveness_statement.
 Proof. exact reliable_liveness_full_refuted. Qed.
+
+(* LIVENESS, the proved part (stage 1: hole-free and unfragmented).  KEEP_ALL writer (depth = 0), schedules
+   without removal from the history cache and without deletion of the reader, every sample fits one DATA
+   submessage, at most 256 samples: after ANY such schedule (all loss / duplication / reordering /
+   delay patterns, late joiners of any durability), five ticks of the worker (250 ms >= the heartbeat
+   period) and ANY loss-free delivery sequence - single deliveries in any order, FIFO pumps - whenever
+   nothing is queued any more, every change the writer holds and that is relevant for the RELIABLE
+   matched reader has been presented.  Proof: class invariant (GAPs only cover irrelevant samples,
+   nothing relevant below highest_received is skipped, counts bounded) plus a healing invariant: the
+   newest HEARTBEAT is on its way or processed; once processed, the newest ACKNACK - which requests the
+   last sample - is on its way; when the writer processes it, it emits a newer HEARTBEAT. *)
+Theorem C01_reliable_liveness_partial :
+  forall cf sched dels,
+    0 < fsz cf -> depth cf = 0 ->
+    forallb (live_act cf) sched = true -> forallb is_delivery dels = true ->
+    let s := run cf init (sched ++ five_ticks ++ dels) in
+    s_last s <= 256 -> s_net s = [] -> delivered s.
+Proof. exact reliable_liveness_unfragmented. Qed.
+
+(* the same in scenario vocabulary: k + 1 healing rounds, nothing queued at the end *)
+Theorem C01_reliable_liveness_heal_partial :
+  forall cf sched k,
+    0 < fsz cf -> depth cf = 0 -> forallb (live_act cf) sched = true ->
+    let s := run cf init (sched ++ heal (S k)) in
+    s_last s <= 256 -> s_net s = [] -> delivered s.
+Proof. exact reliable_liveness_heal. Qed.
 
 (* the witness in detail (replayed on the real stack by the corpus of the check) *)
 Theorem C01_gap_skip_witness :
@@ -61,4 +87,6 @@ Proof. exact heal_example_lost_fragmented_sample. Qed.
 
 Print Assumptions C01_reliable_safety.
 Print Assumptions C01_reliable_liveness_refuted_gap_skip.
+Print Assumptions C01_reliable_liveness_partial.
+Print Assumptions C01_reliable_liveness_heal_partial.
 Print Assumptions C01_gap_skip_witness.
